@@ -72,6 +72,7 @@ ASSUMPTIONS = [
     'PLY parser / lexer tables are built once per worker process and shared between the '
     'MOFCompiler objects compile_mof_string creates (as in C09)',
 ]
+_ALLVIA = ['CreateClass', 'MOF', 'ModifyClass']
 BOUNDS = {
     'quick': {
         'content': [
@@ -87,23 +88,33 @@ BOUNDS = {
             {'classes': 3, 'depth': 2, 'fanout': 1, 'budget': 5, 'via': ['CreateClass', 'ModifyClass'],
              'features': ['m'], 'qualifiers': ['Q1'], 'flags_matrix_budget': 0},
         ],
-        'orders': {'classes': 4, 'depth': 3, 'fanout': 4, 'budget': 1,
-                   'via': ['CreateClass', 'MOF', 'ModifyClass'], 'creation_orders': 'all linear extensions'},
+        'orders': [
+            {'classes': 4, 'depth': 3, 'fanout': 4, 'budget': 1, 'via': _ALLVIA,
+             'creation_orders': 'all linear extensions', 'parts': 20},
+        ],
         'flag_combinations': '3x3x3 x PropertyList in {None, [], [p], [P,zz]}',
     },
     'thorough': {
         'content': [
             {'classes': 4, 'depth': 3, 'fanout': 4, 'budget': 4, 'via': ['CreateClass'],
-             'flags_matrix_budget': 2},
+             'flags_matrix_budget': 3, 'chunks': 32},
             {'classes': 4, 'depth': 3, 'fanout': 4, 'budget': 3, 'via': ['MOF', 'ModifyClass'],
-             'flags_matrix_budget': 2},
+             'flags_matrix_budget': 2, 'chunks': 16},
             {'classes': 5, 'depth': 4, 'fanout': 4, 'budget': 3, 'via': ['CreateClass'],
-             'flags_matrix_budget': 0},
+             'flags_matrix_budget': 0, 'chunks': 16},
             {'classes': 6, 'depth': 5, 'fanout': 4, 'budget': 2, 'via': ['CreateClass'],
              'flags_matrix_budget': 0},
+            {'classes': 4, 'depth': 3, 'fanout': 1, 'budget': 6, 'via': _ALLVIA,
+             'features': ['p'], 'qualifiers': ['Q1'], 'flags_matrix_budget': 0},
+            {'classes': 4, 'depth': 3, 'fanout': 1, 'budget': 6, 'via': _ALLVIA,
+             'features': ['m'], 'qualifiers': ['Q1'], 'flags_matrix_budget': 0},
         ],
-        'orders': {'classes': 5, 'depth': 4, 'fanout': 4, 'budget': 1,
-                   'via': ['CreateClass', 'MOF', 'ModifyClass'], 'creation_orders': 'all linear extensions'},
+        'orders': [
+            {'classes': 5, 'depth': 4, 'fanout': 4, 'budget': 1, 'via': _ALLVIA,
+             'creation_orders': 'all linear extensions', 'parts': 48},
+            {'classes': 6, 'depth': 5, 'fanout': 4, 'budget': 0, 'via': _ALLVIA,
+             'creation_orders': 'all linear extensions', 'parts': 12},
+        ],
         'flag_combinations': '3x3x3 x PropertyList in {None, [], [p], [P,zz]}',
     },
 }
@@ -1393,7 +1404,6 @@ def explore_orders(acc, p, via, part, of):
 # ==========================================================================================
 # runner interface
 
-ORDER_PARTS = 20
 
 
 def plan(tier, seed):
@@ -1411,9 +1421,10 @@ def plan(tier, seed):
                         for ch in range(chunks):
                             shards.append(dict(check='content', p=pi, via=via, f1=f1, f2=f2,
                                                supercase=sc, chunk=ch, of=chunks))
-    for via in b['orders']['via']:
-        for part in range(ORDER_PARTS):
-            shards.append(dict(check='orders', via=via, part=part, of=ORDER_PARTS))
+    for pi, p in enumerate(b['orders']):
+        for via in p['via']:
+            for part in range(p['parts']):
+                shards.append(dict(check='orders', p=pi, via=via, part=part, of=p['parts']))
     return shards
 
 
@@ -1426,7 +1437,7 @@ def run_shard(shard, tier):
         explore_content(acc, b['content'][shard['p']], shard['via'], flav, shard['chunk'],
                         shard['of'], shard['supercase'])
     else:
-        explore_orders(acc, b['orders'], shard['via'], shard['part'], shard['of'])
+        explore_orders(acc, b['orders'][shard['p']], shard['via'], shard['part'], shard['of'])
     return acc
 
 
